@@ -133,7 +133,7 @@ PROPS = {
         "theorems": ["MF.Props.C07.parse_sound", "MF.Props.C07.parse_complete", "MF.Props.C07.grouping_unique",
                      "MF.Props.C07.comparison_once", "MF.Props.C07.comparison_nonassoc", "MF.Props.C07.print_minimal_partial",
                      "MF.Props.C07.parse_mono", "MF.Props.C07.level_is_table", "MF.Props.C07.top_sound", "MF.Props.C07.top_complete",
-                     "MF.Props.C07.no_crash"],
+                     "MF.Props.C07.no_crash", "MF.Props.C07.subscript_word_not_call", "MF.Props.C07.subscript_word_plain"],
         "channels": ["EXPR"],
         "pred": True,
         "level": "proof",
